@@ -356,3 +356,22 @@ Proof.
     change (match r1 with Some t => [t] | None => [] end) with (opt r1).
     perm.
 Qed.
+
+Theorem pop_best_none_iff b : snd (pop_best b) = None <-> held b = [].
+Proof.
+  destruct (pop_best b) as [b' r] eqn:E. destruct (pop_best_spec _ _ _ E) as [_ Hr]. cbn [snd].
+  destruct r as [t|]; split; intros H; try discriminate; try tauto.
+  destruct Hr as (Hin & _). rewrite H in Hin. destruct Hin.
+Qed.
+
+(* a buffer of n slots never holds more than n tasks, and n never changes *)
+Lemma held_le_size b : (length (held b) <= length b)%nat.
+Proof. induction b as [|[t|] b IH]; [cbn; lia| |]; rewrite held_cons; cbn [opt app length]; lia. Qed.
+
+Theorem brun_bounded ops bufs bufs' out : brun bufs ops = (bufs', out) ->
+  map (@length _) bufs' = map (@length _) bufs /\
+  Forall (fun b => (length (held b) <= length b)%nat) bufs'.
+Proof.
+  intros H. destruct out as [rets q]. split; [now apply brun_conserves in H|].
+  apply Forall_forall. intros b _. apply held_le_size.
+Qed.
